@@ -37,7 +37,7 @@ import time
 
 sys.path.insert(0, os.path.dirname(os.path.abspath(__file__)))
 import common  # noqa: E402
-from common import RUSTFMT, Run, Scratch, base_env, parallel_map, require_bins  # noqa: E402
+from common import RUSTFMT, Run, Scratch, base_env, require_bins  # noqa: E402
 
 PROP = "C05"
 RUSTFMT = os.environ.get("C05_RUSTFMT_BIN") or RUSTFMT  # mutation demonstrations only
@@ -320,6 +320,29 @@ def build_faulty_tree(shape, faults):
 # --------------------------------------------------------------------------------------------- running
 
 _tls = threading.local()
+_POOL = None
+
+
+def pmap(fn, items):
+    """Deterministic-order map over worker PROCESSES (fork): the Python side of a case (building the
+    tree, hashing it twice) is as expensive as the subject run, so threads would serialise on the GIL."""
+    global _POOL
+    jobs = int(os.environ.get("VERIF_JOBS", "0") or 0) or (os.cpu_count() or 8)
+    if jobs <= 1:
+        return [fn(i) for i in items]
+    if _POOL is None:
+        import multiprocessing
+
+        _POOL = multiprocessing.get_context("fork").Pool(jobs)
+    return _POOL.map(fn, items, chunksize=2)
+
+
+def pool_close():
+    global _POOL
+    if _POOL is not None:
+        _POOL.terminate()
+        _POOL.join()
+        _POOL = None
 SCRATCH = None
 REF = {}  # shape id / "H" -> {rel: formatted bytes}
 
@@ -327,7 +350,7 @@ REF = {}  # shape id / "H" -> {rel: formatted bytes}
 def workdir():
     d = getattr(_tls, "dir", None)
     if d is None:
-        d = SCRATCH.path(f"w{threading.get_ident()}")
+        d = SCRATCH.path(f"w{os.getpid()}-{threading.get_ident()}")
         _tls.dir = d
     return d
 
@@ -667,13 +690,14 @@ def main():
                 run.extra["stopped_after_fault_trees"] = done_items
                 run.extra["fault_trees_total"] = len(order)
                 break
-            part = parallel_map(run_item, order[i : i + chunk])
+            part = pmap(run_item, order[i : i + chunk])
             for r in part:
                 done_items += 1
                 if r is None:
                     skipped_incompatible += 1
                 else:
                     trees.append(r)
+        pool_close()
         run.count("fault_trees_singles", len(singles))
         run.count("fault_trees_pairs", len(pairs))
         run.count("fault_trees_pairs_not_combinable", skipped_incompatible)
@@ -816,4 +840,15 @@ def replay(path):
 
 
 if __name__ == "__main__":
-    main()
+    try:
+        main()
+    except SystemExit:
+        raise
+    except BaseException:  # a crash of the driver is a machinery failure, never a verdict
+        import traceback
+
+        traceback.print_exc()
+        pool_close()
+        if SCRATCH is not None:
+            SCRATCH.cleanup()
+        sys.exit(2)
